@@ -13,13 +13,15 @@ import ScalesModel.Core.Run
 import ScalesModel.Adapter.Async
 import ScalesModel.Adapter.Heap
 import ScalesModel.Adapter.FrontEnd
+import ScalesModel.Adapter.TagPool
 open Scales
 
 def components : List Comp := [
   ⟨"async", Scales.Async.comp.run⟩,
   ⟨"heap3", (Scales.Heap.comp 3).run⟩,
   ⟨"heap4", (Scales.Heap.comp 4).run⟩,
-  ⟨"frontend", Scales.FrontEnd.comp.run⟩
+  ⟨"frontend", Scales.FrontEnd.comp.run⟩,
+  ⟨"tagpool", Scales.TagPool.comp.run⟩
 ]
 
 structure CaseAcc where
